@@ -57,8 +57,8 @@ class GeomdlBase(object):
         cls = self.__class__
         result = cls.__new__(cls)
         memo[id(self)] = result
-        # Don't copy the cache
-        memo[id(self._cache)] = self._cache.__new__(dict)
+        # Don't copy the cache: the copy starts with the same cache slots, all empty
+        memo[id(self._cache)] = {k: v.__class__() for k, v in self._cache.items()}
         # Copy all other attributes
         for k, v in self.__dict__.items():
             setattr(result, k, copy.deepcopy(v, memo))
